@@ -35,21 +35,28 @@ RICH_XML = """
       <joint name="s" type="slide" axis="0 0 1"/>
       <geom type="sphere" size="0.05" mass="0.5" contype="0" conaffinity="0"/>
     </body>
+    <body name="pend" pos="0 1 1">
+      <joint name="bq" type="ball"/>
+      <geom type="capsule" fromto="0 0 0 0.2 0 0" size="0.02" mass="0.2" contype="0" conaffinity="0"/>
+    </body>
     <body name="mc" mocap="true" pos="-1 0 1"><geom type="sphere" size="0.02" contype="0" conaffinity="0"/></body>
   </worldbody>
   <equality><connect body1="slider" body2="mc" anchor="0 0 0.5" solref="0.05 1"/></equality>
   <actuator>
     <motor name="m1" joint="h" gear="1" delay="0.01" nsample="3"/>
     <general name="m2" joint="h2" dyntype="filter" dynprm="0.05" gainprm="2"/>
-    <general name="m3" joint="s" dyntype="user" actdim="2" dynprm="1" gainprm="1"/>
+    <general name="m3" joint="s" dyntype="user" actdim="3" dynprm="1" gainprm="1"/>
   </actuator>
   <sensor>
     <jointpos joint="h" delay="0.01" nsample="3"/>
     <jointvel joint="s"/>
+    <framepos objtype="body" objname="fore" delay="0.01" nsample="3"/>
+    <framelinvel objtype="body" objname="box" delay="0.015" nsample="5" interp="linear"/>
+    <ballquat joint="bq" delay="0.005" nsample="2"/>
   </sensor>
   <keyframe>
-    <key name="k0" time="0.25" qpos="0 0 0.3 1 0 0 0 0.3 -0.2 0.1" qvel="0 0 0 0 0 0 0.5 0 0" act="0.1 0.2 0.3" ctrl="0.5 -0.5 0.25" mpos="-1 0 1.2" mquat="1 0 0 0"/>
-    <key name="k1" time="1" qpos="0.2 0 0.095 1 0 0 0 -0.3 0.2 0" act="0 0 0.5" ctrl="0 1 0"/>
+    <key name="k0" time="0.25" qpos="0 0 0.3 1 0 0 0 0.3 -0.2 0.1 1 0 0 0" qvel="0 0 0 0 0 0 0.5 0 0 0.2 0 0.1" act="0.1 0.2 0.3 -0.4" ctrl="0.5 -0.5 0.25" mpos="-1 0 1.2" mquat="1 0 0 0"/>
+    <key name="k1" time="1" qpos="0.2 0 0.095 1 0 0 0 -0.3 0.2 0 0.7071 0.7071 0 0" act="0 0 0.5 0.25" ctrl="0 1 0"/>
   </keyframe>
 </mujoco>
 """
